@@ -53,9 +53,28 @@ func vSyncInt(name string, x int) int {
 	return int(vModelU64(name))
 }
 
-// vRunUntilCrash: the engine runs f and reports whether a crash fork ended it; natively f is not run
-// at all - the image the engine computed is materialised by vStorageRoot instead.
-func vRunUntilCrash(f func()) bool { return false }
+// vRunUntilCrash: the engine runs f and reports whether a crash fork ended it. Natively, a run that the
+// model says did not crash is executed for real (so assertions inside it replay too); a run that crashed
+// is not executed - the post-crash image the engine computed is materialised by vStorageRoot instead.
+func vRunUntilCrash(f func()) bool {
+	if vPeekU64("crashed") == 0 {
+		f()
+	}
+	return false
+}
+
+// vPeekU64 reads a model value without consuming an occurrence.
+func vPeekU64(name string) uint64 {
+	v, ok := vRT.file.Model[name]
+	if !ok {
+		return 0
+	}
+	if s, isS := v.(string); isS {
+		u, _ := strconv.ParseUint(s, 10, 64)
+		return u
+	}
+	return 0
+}
 
 // vStorageRoot returns the directory the storage code works in.
 func vStorageRoot() string {
@@ -63,7 +82,9 @@ func vStorageRoot() string {
 		return "/data"
 	}
 	root := vNativeDir()
-	vMaterialize(root)
+	if vPeekU64("crashed") == 1 {
+		vMaterialize(root)
+	}
 	return filepath.Join(root, "data")
 }
 
@@ -440,6 +461,15 @@ func vh_LogCrash() {
 		}
 	}
 	vAssert(ok, "C12.recovered-entries-are-returned-operations-plus-inflight-prefix")
+	// every record carries the file offset it was written at (Truncate relies on it): offsets read back
+	// strictly increasing, the first entry after the 4-byte placeholder record not before offset 4
+	vAssert(got[0].Offset == 0, "C12|C19.first-record-at-offset-zero")
+	for i := 1; i < len(got); i++ {
+		vAssert(got[i].Offset > got[i-1].Offset, "C12|C19.record-offsets-read-back-increasing")
+	}
+	if len(got) > 1 {
+		vAssert(got[1].Offset >= 4, "C12|C19.record-offsets-read-back-increasing")
+	}
 	vAssert(!vMisparsed(), "C12.framing-intact")
 	vCoverIf(crashed, "crashed-and-reopened")
 	// ---- C12.again: the reopened log keeps working: one more append, truncate it away again, reopen
@@ -580,6 +610,31 @@ type vSnapPlan struct {
 	finish int // 0 close, 1 discard, 2 leave open
 }
 
+// vCheckNewest asserts that SnapshotFile() returns the most recent of plans[:upto] that was closed.
+func vCheckNewest(st SnapshotStorage, plans []*vSnapPlan, upto int, label string) {
+	want := -1
+	for i := 0; i < upto; i++ {
+		if plans[i].finish == 0 {
+			want = i
+		}
+	}
+	f, err := st.SnapshotFile()
+	vAssert(err == nil, label)
+	if err != nil {
+		return
+	}
+	if f == nil {
+		vAssert(want == -1, label)
+		return
+	}
+	vAssert(want >= 0, label)
+	if want >= 0 {
+		md := f.Metadata()
+		vAssert(vAnd(md.LastIncludedIndex == plans[want].index, md.LastIncludedTerm == plans[want].term), label)
+	}
+	_ = f.Close()
+}
+
 func vh_SnapCrash() {
 	vOnFatal("C13.no-fatal")
 	vOnPanic("C13|C18.nopanic")
@@ -613,6 +668,9 @@ func vh_SnapCrash() {
 					return
 				}
 			}
+			// while this writer is still open, the storage hands out the newest snapshot whose writer was
+			// closed - never the one being written
+			vCheckNewest(st, plans, i, "C13.open-writer-is-not-handed-out")
 			switch p.finish {
 			case 0:
 				if opErr = f.Close(); opErr != nil {
